@@ -12,6 +12,7 @@ import (
 	"github.com/opsidian/parsley/text/terminal"
 
 	"verif/mc/explore"
+	"verif/mc/hook"
 )
 
 // C17 — work stays polynomial on unambiguous grammars. For every family and
@@ -19,10 +20,12 @@ import (
 // is identical on two fresh runs, and the parse succeeds with the expected value.
 
 type c17Family struct {
-	name  string
-	build func() parsley.Parser
-	input func(n int) string                // canonical input of "size" n (length grows linearly with n)
-	check func(n int, v interface{}) string // "" if the value is as expected
+	scale  float64 // fraction of the tier's size range used for this (expensive) family; 0 = all of it
+	reject bool    // the canonical inputs are NOT sentences: the parse must fail, the work bound is judged all the same
+	name   string
+	build  func() parsley.Parser
+	input  func(n int) string                // canonical input of "size" n (length grows linearly with n)
+	check  func(n int, v interface{}) string // "" if the value is as expected
 }
 
 var concatInterp = ast.InterpreterFunc(func(userCtx interface{}, node parsley.NonTerminalNode) (interface{}, parsley.Error) {
@@ -65,37 +68,38 @@ func c17Families() []c17Family {
 	r := terminal.Rune
 	seq := func(ps ...parsley.Parser) parsley.Parser { return combinator.SeqOf(ps...).Bind(concatInterp) }
 	var fams []c17Family
+	anyValue := func(int, interface{}) string { return "" }
 
 	// P -> P b | a
 	in1 := func(n int) string { return "a" + strings.Repeat("b", n-1) }
-	fams = append(fams, c17Family{"direct left recursion P -> P b | a", func() parsley.Parser {
+	fams = append(fams, c17Family{name: "direct left recursion P -> P b | a", build: func() parsley.Parser {
 		var p parser.Func
 		p = combinator.Memoize(combinator.Any(seq(&p, r('b')), r('a')))
 		return combinator.Sentence(&p)
-	}, in1, sameAsInput(in1)})
+	}, input: in1, check: sameAsInput(in1)})
 
 	// mutual: A -> B x | a ; B -> A y | b
 	in2 := func(n int) string { return "a" + strings.Repeat("yx", n/2) }
-	fams = append(fams, c17Family{"mutual left recursion A -> B x | a, B -> A y | b", func() parsley.Parser {
+	fams = append(fams, c17Family{name: "mutual left recursion A -> B x | a, B -> A y | b", build: func() parsley.Parser {
 		var a, b parser.Func
 		a = combinator.Memoize(combinator.Any(seq(&b, r('x')), r('a')))
 		b = combinator.Memoize(combinator.Any(seq(&a, r('y')), r('b')))
 		return combinator.Sentence(&a)
-	}, in2, sameAsInput(in2)})
+	}, input: in2, check: sameAsInput(in2)})
 
 	// hidden: P -> eps P b | a
-	fams = append(fams, c17Family{"hidden left recursion P -> eps P b | a", func() parsley.Parser {
+	fams = append(fams, c17Family{name: "hidden left recursion P -> eps P b | a", build: func() parsley.Parser {
 		var p parser.Func
 		p = combinator.Memoize(combinator.Any(seq(parser.Empty(), &p, r('b')), r('a')))
 		return combinator.Sentence(&p)
-	}, in1, sameAsInput(in1)})
+	}, input: in1, check: sameAsInput(in1)})
 
 	// hidden through an optional prefix, x-free inputs: P -> x? P b | a
-	fams = append(fams, c17Family{"hidden left recursion P -> x? P b | a on x-free input", func() parsley.Parser {
+	fams = append(fams, c17Family{name: "hidden left recursion P -> x? P b | a on x-free input", build: func() parsley.Parser {
 		var p parser.Func
 		p = combinator.Memoize(combinator.Any(seq(combinator.Optional(r('x')), &p, r('b')), r('a')))
 		return combinator.Sentence(&p)
-	}, in1, sameAsInput(in1)})
+	}, input: in1, check: sameAsInput(in1)})
 
 	// arithmetic (C05's grammar): left chains, mixed operators, nested parentheses
 	arith := func() parsley.Parser { return ArithParser() }
@@ -125,10 +129,10 @@ func c17Families() []c17Family {
 	}
 	for _, ops := range []string{"+", "-*", "+*-"} {
 		in := chain(ops)
-		fams = append(fams, c17Family{"arithmetic, operator pattern " + ops, arith, in, refValue(in)})
+		fams = append(fams, c17Family{name: "arithmetic, operator pattern " + ops, build: arith, input: in, check: refValue(in)})
 	}
 	inPar := func(n int) string { d := n / 2; return strings.Repeat("(", d) + "1" + strings.Repeat(")", d) }
-	fams = append(fams, c17Family{"arithmetic, nested parentheses", arith, inPar, refValue(inPar)})
+	fams = append(fams, c17Family{scale: 0.7, name: "arithmetic, nested parentheses", build: arith, input: inPar, check: refValue(inPar)})
 
 	// nested brackets S -> ( S ) S | eps
 	brackets := func() parsley.Parser {
@@ -138,15 +142,70 @@ func c17Families() []c17Family {
 	}
 	inNest := func(n int) string { return strings.Repeat("(", n/2) + strings.Repeat(")", n/2) }
 	inFlat := func(n int) string { return strings.Repeat("()", n/2) }
-	anyValue := func(int, interface{}) string { return "" }
-	fams = append(fams, c17Family{"brackets S -> ( S ) S | eps, nested input", brackets, inNest, anyValue})
-	fams = append(fams, c17Family{"brackets S -> ( S ) S | eps, flat input", brackets, inFlat, anyValue})
+	fams = append(fams, c17Family{name: "brackets S -> ( S ) S | eps, nested input", build: brackets, input: inNest, check: anyValue})
+	fams = append(fams, c17Family{name: "brackets S -> ( S ) S | eps, flat input", build: brackets, input: inFlat, check: anyValue})
 
 	// separated list
 	inList := func(n int) string { return strings.TrimSuffix(strings.Repeat("1,", (n+1)/2), ",") }
-	fams = append(fams, c17Family{"SepBy1(integer, ',')", func() parsley.Parser {
+	fams = append(fams, c17Family{name: "SepBy1(integer, ',')", build: func() parsley.Parser {
 		return combinator.Sentence(combinator.SepBy1(terminal.Integer(nil), r(',')).Bind(concatInterp))
-	}, inList, anyValue})
+	}, input: inList, check: anyValue})
+	// precedence ladder: six nested left-recursive levels  | & = + * ^  over integers and parentheses
+	ladder := func() parsley.Parser {
+		ops := []rune{'|', '&', '=', '+', '*', '^'}
+		var top parser.Func
+		atom := combinator.Memoize(combinator.Any(terminal.Integer(nil), seq(r('('), &top, r(')'))))
+		levels := make([]parser.Func, len(ops)+1)
+		levels[len(ops)] = atom
+		for i := len(ops) - 1; i >= 0; i-- {
+			i := i
+			levels[i] = combinator.Memoize(combinator.Any(seq(&levels[i], r(ops[i]), &levels[i+1]), &levels[i+1]))
+		}
+		top = levels[0]
+		return combinator.Sentence(&top)
+	}
+	inLadderPar := func(n int) string { d := n / 2; return strings.Repeat("(", d) + "1" + strings.Repeat(")", d) }
+	inLadderChain := func(n int) string {
+		var sb strings.Builder
+		for i := 0; i < (n+1)/2; i++ {
+			if i > 0 {
+				sb.WriteByte("|&=+*^"[(i-1)%6])
+			}
+			sb.WriteByte('1')
+		}
+		return sb.String()
+	}
+	fams = append(fams, c17Family{scale: 0.4, name: "precedence ladder of 6 left-recursive levels, nested parentheses", build: ladder, input: inLadderPar, check: anyValue})
+	fams = append(fams, c17Family{name: "precedence ladder of 6 left-recursive levels, operator chain", build: ladder, input: inLadderChain, check: anyValue})
+
+	// brackets whose alternatives share a prefix: S -> A | B, A -> (A) | (A] | a, B -> (B) | (B] | b  (valid B text)
+	shared := func() parsley.Parser {
+		var a, b parser.Func
+		a = combinator.Memoize(combinator.Any(seq(r('('), &a, r(')')), seq(r('('), &a, r(']')), r('a')))
+		b = combinator.Memoize(combinator.Any(seq(r('('), &b, r(')')), seq(r('('), &b, r(']')), r('b')))
+		return combinator.Sentence(combinator.Any(&a, &b))
+	}
+	inShared := func(n int) string {
+		d := n / 2
+		var sb strings.Builder
+		sb.WriteString(strings.Repeat("(", d) + "b")
+		for i := 0; i < d; i++ {
+			sb.WriteByte(")]"[i%2])
+		}
+		return sb.String()
+	}
+	fams = append(fams, c17Family{name: "brackets with shared prefixes S -> A | B, X -> (X) | (X] | x, valid B text", build: shared, input: inShared, check: anyValue})
+
+	// rejected inputs: the work bound holds for failing parses as well
+	wrongFirst := func(in func(int) string) func(int) string { return func(n int) string { return "x" + in(n) } }
+	truncated := func(in func(int) string) func(int) string {
+		return func(n int) string { s := in(n); return s[:len(s)-1] + "+" }
+	}
+	fams = append(fams, c17Family{reject: true, name: "arithmetic, operator pattern +- with a wrong first byte (rejected)", build: arith, input: wrongFirst(chain("+-")), check: anyValue})
+	fams = append(fams, c17Family{reject: true, name: "arithmetic, operator pattern +* ending in a dangling operator (rejected)", build: arith, input: truncated(chain("+*")), check: anyValue})
+	fams = append(fams, c17Family{reject: true, name: "precedence ladder, chain with a wrong first byte (rejected)", build: ladder, input: wrongFirst(inLadderChain), check: anyValue})
+	fams = append(fams, c17Family{reject: true, name: "brackets with shared prefixes, last closer missing (rejected)", build: shared, input: func(n int) string { s := inShared(n); return s[:len(s)-1] }, check: anyValue})
+	fams = append(fams, c17Family{reject: true, name: "direct left recursion P -> P b | a with a trailing a (rejected)", build: fams[0].build, input: func(n int) string { return in1(n) + "a" }, check: anyValue})
 	return fams
 }
 
@@ -155,45 +214,115 @@ type c17Case struct {
 	N      int `json:"n"`
 }
 
-func c17Count(f *c17Family, p parsley.Parser, n int) (calls int, val interface{}, err error, pm string) {
+// c17AbsoluteCap bounds a single parse; the largest parse of the families on the unchanged tree needs < 15M calls.
+const c17AbsoluteCap = 60000000
+
+// c17Count parses the family input of size n under a call budget (0 = absolute cap only). capped reports
+// that the budget was exhausted and the parse aborted.
+func c17Count(f *c17Family, p parsley.Parser, n int, budget int64) (calls int, val interface{}, err error, pm string, capped bool) {
 	in := f.input(n)
 	fs, _, r, _ := place(placements[0], "f", []byte(in))
 	ctx := parsley.NewContext(fs, r)
-	pm = guard(func() { val, err = parsley.Evaluate(ctx, p) })
-	return ctx.CallCount(), val, err, pm
+	if budget <= 0 || budget > c17AbsoluteCap {
+		budget = c17AbsoluteCap
+	}
+	hook.SetBudget(budget)
+	defer hook.SetBudget(0)
+	func() {
+		defer func() {
+			if rec := recover(); rec != nil {
+				if _, ok := rec.(hook.BudgetExceeded); ok {
+					capped = true
+					return
+				}
+				pm = fmt.Sprint(rec)
+			}
+		}()
+		val, err = parsley.Evaluate(ctx, p)
+	}()
+	return ctx.CallCount(), val, err, pm, capped
 }
 
-func c17One(res *explore.Result, fi int, n int, verbose bool) {
-	fams := c17Families()
+// c17One judges one (family, n). known maps sizes already parsed in this family to their call counts and is
+// used to cap the work of a parse at 16x the count of half its size, so that a regression which makes the work
+// explode is reported after bounded effort instead of after an exponential run.
+func c17One(res *explore.Result, fams []c17Family, fi int, n int, known map[int]int, verbose bool) (violated bool) {
 	f := &fams[fi]
 	p := f.build()
 	cs := c17Case{fi, n}
 	where := fmt.Sprintf("family %q, n=%d (input length %d)", f.name, n, len(f.input(n)))
-	c1, v, err, pm := c17Count(f, p, n)
+	budgetFor := func(size int) int64 {
+		if size >= 16 && size%2 == 0 {
+			if h, ok := known[size/2]; ok {
+				return 16*int64(h) + 64
+			}
+		}
+		if size < 16 {
+			return 4000000 // small constant sizes: a generous absolute cap
+		}
+		return 0
+	}
+	viol := func(key, what string) bool {
+		res.Violate(key, where+": "+what, cs)
+		return true
+	}
 	res.Add("states", 1)
-	res.Add("transitions", int64(c1))
+	var c1 int
+	var v interface{}
+	var err error
+	var pm string
+	var capped bool
+	reused := false
+	if k, ok := known[n]; ok && n > 40 && n%10 != 0 {
+		// this size was already parsed (as the 2n of n/2) with the same grammar: reuse its count
+		c1, reused = k, true
+	} else {
+		c1, v, err, pm, capped = c17Count(f, p, n, budgetFor(n))
+		res.Add("transitions", int64(c1))
+	}
+	if capped {
+		return viol("superpolynomial-growth", fmt.Sprintf("the parse of an input of %d bytes was aborted after %d parser calls (more than 16x the calls of half the size, or the absolute cap)", len(f.input(n)), c1))
+	}
 	if pm != "" {
-		res.Violate("panic", where+": "+pm, cs)
-		return
+		return viol("panic", pm)
 	}
-	if err != nil {
-		res.Violate("family-input-rejected", fmt.Sprintf("%s: the canonical input %q is rejected: %v", where, f.input(n), err), cs)
-		return
-	}
-	if why := f.check(n, v); why != "" {
-		res.Violate("wrong-value", where+": "+why, cs)
-		return
+	known[n] = c1
+	if reused {
+		// outcome and value of this size were judged when it was parsed as a 2n
+	} else if f.reject {
+		if err == nil {
+			return viol("rejected-family-input-accepted", fmt.Sprintf("the input %q is not a sentence but the parse succeeds with %v", f.input(n), v))
+		}
+	} else if err != nil {
+		return viol("family-input-rejected", fmt.Sprintf("the canonical input %q is rejected: %v", f.input(n), err))
+	} else if why := f.check(n, v); why != "" {
+		return viol("wrong-value", why)
 	}
 	// determinism on a fresh context AND a freshly built grammar
-	c1b, _, _, _ := c17Count(f, f.build(), n)
-	if c1b != c1 {
-		res.Violate("call-count-not-deterministic", fmt.Sprintf("%s: call count %d on the first run, %d on a fresh run", where, c1, c1b), cs)
+	if !reused {
+		c1b, _, _, _, _ := c17Count(f, f.build(), n, 2*int64(c1)+64)
+		if c1b != c1 {
+			return viol("call-count-not-deterministic", fmt.Sprintf("call count %d on the first run, %d on a freshly built grammar", c1, c1b))
+		}
+	} else if k, ok := known[n]; ok && k != c1 {
+		return viol("call-count-not-deterministic", "two parses of the same input gave different call counts")
 	}
-	c2, _, err2, pm2 := c17Count(f, p, 2*n)
+	c2, v2, err2, pm2, capped2 := c17Count(f, p, 2*n, 16*int64(c1)+64)
 	res.Add("transitions", int64(c2))
-	if pm2 != "" || err2 != nil {
-		res.Violate("family-input-rejected", fmt.Sprintf("%s: size 2n fails: %v %s", where, err2, pm2), cs)
-		return
+	if capped2 && n >= 8 {
+		return viol("superpolynomial-growth", fmt.Sprintf("calls(n)=%d, and the parse of size 2n was aborted after more than 16*calls(n) calls", c1))
+	}
+	if capped2 {
+		return false // n < 8: below "a small constant size" the ratio is not judged
+	}
+	if pm2 != "" || (err2 != nil) != f.reject {
+		return viol("family-input-rejected", fmt.Sprintf("size 2n: unexpected outcome: %v %s", err2, pm2))
+	}
+	known[2*n] = c2
+	if !f.reject {
+		if why := f.check(2*n, v2); why != "" {
+			return viol("wrong-value", "size 2n: "+why)
+		}
 	}
 	ratio := float64(c2) / float64(c1)
 	res.Add("traces", 1)
@@ -204,8 +333,9 @@ func c17One(res *explore.Result, fi int, n int, verbose bool) {
 		res.Sample(fmt.Sprintf("%s: calls(n)=%d calls(2n)=%d ratio %.2f", where, c1, c2, ratio))
 	}
 	if n >= 8 && c2 > 16*c1 {
-		res.Violate("superpolynomial-growth", fmt.Sprintf("%s: calls(n)=%d, calls(2n)=%d: doubling the input multiplied the work by %.1f > 16", where, c1, c2, ratio), cs)
+		return viol("superpolynomial-growth", fmt.Sprintf("calls(n)=%d, calls(2n)=%d: doubling the input multiplied the work by %.1f > 16", c1, c2, ratio))
 	}
+	return false
 }
 
 func c17MaxN(tier string) int {
@@ -217,14 +347,24 @@ func c17MaxN(tier string) int {
 
 func c17Run(env *explore.Env) *explore.Result {
 	res := explore.NewResult()
-	nf := len(c17Families())
-	var idx int64
-	for fi := 0; fi < nf; fi++ {
-		for n := 4; n <= c17MaxN(env.Tier); n++ {
-			if env.Mine(idx) {
-				c17One(res, fi, n, false)
+	fams := c17Families()
+	// one family per worker, sizes ascending: the counts of smaller sizes cap the work of larger ones, and a
+	// family stops at its first violation (the smallest n)
+	for fi := range fams {
+		if !env.Mine(int64(fi)) {
+			continue
+		}
+		known := map[int]int{}
+		maxN := c17MaxN(env.Tier)
+		if fams[fi].scale > 0 {
+			maxN = int(float64(maxN) * fams[fi].scale)
+		}
+		res.Notes = append(res.Notes, fmt.Sprintf("family %q: every n in 4..%d", fams[fi].name, maxN))
+		for n := 4; n <= maxN; n++ {
+			if c17One(res, fams, fi, n, known, false) {
+				res.Notes = append(res.Notes, fmt.Sprintf("family %q stopped at its first violation (n=%d)", fams[fi].name, n))
+				break
 			}
-			idx++
 		}
 	}
 	return res
@@ -233,11 +373,19 @@ func c17Run(env *explore.Env) *explore.Result {
 func c17Replay(raw json.RawMessage) *explore.Result {
 	res := explore.NewResult()
 	var c c17Case
-	if err := json.Unmarshal(raw, &c); err != nil || c.Family < 0 || c.Family >= len(c17Families()) {
+	fams := c17Families()
+	if err := json.Unmarshal(raw, &c); err != nil || c.Family < 0 || c.Family >= len(fams) {
 		res.Notes = append(res.Notes, "bad case")
 		return res
 	}
-	c17One(res, c.Family, c.N, true)
+	known := map[int]int{}
+	// rebuild the work caps the exploration had: parse half the size first (when the case is an even size >= 16)
+	if c.N >= 16 && c.N%2 == 0 {
+		if h, _, _, _, capped := c17Count(&fams[c.Family], fams[c.Family].build(), c.N/2, 0); !capped {
+			known[c.N/2] = h
+		}
+	}
+	c17One(res, fams, c.Family, c.N, known, true)
 	for _, s := range res.Samples {
 		res.Notes = append(res.Notes, fmt.Sprint(s))
 	}
@@ -248,10 +396,10 @@ func init() {
 	explore.Register(&explore.Check{
 		ID:    "C17",
 		Level: "exploration",
-		Rule: "12 unambiguous grammar families (direct, mutual and hidden left recursion, expr/term/factor arithmetic with three operator patterns and nested parentheses, nested brackets on nested and flat inputs, separated lists) x EVERY size n from 4 to the bound: the canonical inputs of size n and 2n are parsed; calls(2n) <= 16*calls(n) for n >= 8, identical call count on a freshly built grammar, parse succeeds with the expected value; " +
+		Rule: "19 families of unambiguous grammars (direct, mutual and hidden left recursion, expr/term/factor arithmetic with three operator patterns and nested parentheses, nested brackets on nested and flat inputs, separated lists, a precedence ladder of six left-recursive levels, brackets whose alternatives share a prefix, and five families of REJECTED inputs — wrong first byte, dangling operator, missing closer, trailing garbage) x EVERY size n from 4 to the bound: the canonical inputs of size n and 2n are parsed; calls(2n) <= 16*calls(n) for n >= 8, identical call count on a freshly built grammar, parse succeeds with the expected value; " +
 			"evaluation = one (family, n) pair; every evaluated pair is non-trivial (a successful parse of a left-recursive or nested input); a bounded statement about these families and lengths, not a proof of a polynomial bound",
 		Assume: []string{"Context.CallCount is the work measure the property names; ambiguous inputs (e.g. x-prefixed inputs of P -> x? P b | a) are outside the property and excluded"},
-		Shards: func(string) int { return 48 },
+		Shards: func(string) int { return len(c17Families()) },
 		Run:    c17Run,
 		Replay: c17Replay,
 		Bounds: func(tier string) map[string]any {
